@@ -138,11 +138,7 @@ def compile_all(tc, items, workers=None, libdirs=None):
 
 
 def run_checked(exe, args, flags, env=None, timeout=300):
-    r = core.run_exe(exe, args, flags=flags, timeout=timeout, env=env)
-    if r["timeout"]:
-        # a loaded machine must not turn into a verdict: one retry with a much longer limit
-        r = core.run_exe(exe, args, flags=flags, timeout=timeout * 6, env=env)
-    return r
+    return core.run_exe(exe, args, flags=flags, timeout=timeout, env=env)   # run_exe retries a timed-out run once with 5x the limit
 
 
 # ------------------------------------------------------------------------------------------------
